@@ -41,9 +41,17 @@ def gen_probe_project(rng, binp, tries=40, opts=None):
             pass
         # one long interpolation per project (more than 26 parts: nested tuples in the view back-end)
         if o.get("long_key", True):
-            n = rng.pick([27, 29, 31, 40, 51, 53, 55, 60, 79])
+            # an odd and an even number of parts: the chunking of `fit_in_leptos_tuple` has a remainder only for some lengths
+            n1, n2 = rng.pick([27, 29, 31, 51, 53, 55, 79]), rng.pick([40, 52, 60, 78])
             for (ns, l), tree in p["files"].items():
-                tree["o"].append(["longkey", f"[{l}]" + gen.print_src(gen.gen_long_src(rng, n))])
+                tree["o"].append(["longkey", f"[{l}]" + gen.print_src(gen.gen_long_src(rng, n1))])
+                tree["o"].append(["longkey2", f"[{l}]" + gen.print_src(gen.gen_long_src(rng, n2))])
+        if o.get("ordinal_key", True):
+            # an ordinal and a cardinal plural with every form, in every locale (string and view back-ends must use the key's rule type)
+            for (ns, l), tree in p["files"].items():
+                for f in ("one", "two", "few", "many", "other"):
+                    tree["o"].append([f"nth_ordinal_{f}", f"O-{f}-{l}:{{{{ count }}}}"])
+                    tree["o"].append([f"amount_{f}", f"C-{f}-{l}:{{{{ count }}}}"])
         # formatters need typed values: strip them from the probe sources
         q = proj.harness_req(p)
         q["operands"] = sorted(set(q["operands"]) | {f"u:{n}" for n in range(0, 13)} | {"u:21", "u:100", "i:-1", "f:1.5"})
